@@ -1456,6 +1456,10 @@ class FuncVerifier:
             self.bind(target.id, sv, st)
             return
         if isinstance(target, (ast.Tuple, ast.List)):
+            if sv.ty.is_opt and sv.ty.strip_opt().is_seq:
+                # unpacking None raises TypeError: a safety obligation; afterwards the value is the tuple
+                self.safety(st, 'none-deref', sv.term != P.none, target, False)
+                sv = SV(sv.term, sv.ty.strip_opt())
             if not sv.ty.is_seq:
                 self.err(target, 'unpack of %r' % sv.ty)
             self.safety(st, 'unpack', P.slen(sv.term) == len(target.elts), target, False)
